@@ -408,7 +408,13 @@ where
         run.emit(json!({"e":"Ret","t":tid,"it":st.it,"op":st.op,"res":res}));
         mark_call(false);
     }
-    counted(|| drop(bufs));
+    // the buffered iterators the program still holds go with it; a destructor of a leftover may panic (probe):
+    // the thread is then gone, not hung - the panic must not escape before the scheduler has been told
+    if let Err(p) = catch_unwind(AssertUnwindSafe(|| counted(|| drop(bufs)))) {
+        if p.is::<Poison>() {
+            resume_unwind(p);
+        }
+    }
 }
 
 fn is_owner_op(op: &str) -> bool {
@@ -533,8 +539,12 @@ where
                 s.spawn(move || {
                     enter(&run, t, true);
                     let r = catch_unwind(AssertUnwindSafe(|| run_prog(&run, t, its_ref, prog, cloner)));
-                    if r.is_ok() {
-                        done();
+                    match r {
+                        Ok(_) => done(),
+                        // any other panic that ends the program of a worker (there is none left on the current
+                        // tree): the thread has ended, which is not a hang
+                        Err(p) if !p.is::<Poison>() => done(),
+                        Err(_) => {}
                     }
                     leave();
                 });
